@@ -19,6 +19,9 @@ def units():
     U.fn("ts_ctor_copy", assigns=["*$0", GL, "verif_atomic_ops"], noalias=True, requires=pre, pre_call="  global.v = nondet_unsigned_long();\n",
          ensures={"copy_carries_its_sources_value": "$0->value.v == $1->value.v", "counter_never_decreases": "%s >= OLD(%s)" % (GL, GL)})
     U.fn("ts_assign", assigns=["$0->value.v", "verif_atomic_ops"], ensures={"assigned_carries_its_sources_value": "$0->value.v == OLD($1->value.v)", "returns_self": "RET == $0"})
+    U.fn("ts_ctor_move", assigns=["*$0", "$1->value.v", GL, "verif_atomic_ops"], noalias=True, requires=pre, pre_call="  global.v = nondet_unsigned_long();\n",
+         ensures={"moved_to_stamp_carries_its_sources_value": "$0->value.v == OLD($1->value.v)", "counter_never_decreases": "%s >= OLD(%s)" % (GL, GL)})
+    U.fn("ts_assign_move", assigns=["$0->value.v", "$1->value.v", "verif_atomic_ops"], ensures={"move_assigned_carries_its_sources_value": "$0->value.v == OLD($1->value.v)", "returns_self": "RET == $0"})
     U.fn("ts_value", assigns=["verif_atomic_ops"], ensures={"conversion_reads_the_value": "RET == $0->value.v"})
     # ---- notification protocol; state invariant I: every stamp < global
     # the observable has up to 3 registered observers in arbitrary polling states (notifyObservers must not depend on them)
